@@ -258,6 +258,26 @@ func cmdCheck(args []string) int {
 		batchDischarge(gl, dopt, 2000)
 	}
 	discharge(obls, dopt)
+	// second chance for a few slow ones: a time-out under load must not become an alarm. They are
+	// re-run one at a time with three times the limit (a genuine failure only costs the extra time).
+	var retry []*Obligation
+	for _, o := range obls {
+		if !o.Cover && (o.Result == "timeout" || o.Result == "unknown") {
+			retry = append(retry, o)
+		}
+	}
+	if len(retry) > 0 && len(retry) <= 8 {
+		ropt := dopt
+		ropt.TimeoutS = timeout * 3
+		ropt.Workers = 1
+		for _, o := range retry {
+			o.Result = ""
+			discharge([]*Obligation{o}, ropt)
+			if o.Result == "unsat" {
+				o.Solver += "(retry)"
+			}
+		}
+	}
 
 	// required obligations present?
 	var vanished []string
